@@ -1798,6 +1798,7 @@ func runC19DupAlways(c *Ctx) {
 		} else {
 			c.bad(FuncName(dup)+"|every value of the row examined", dup.Pos(), strings.Join(exits, "; ")+": the values behind it are never compared, a second duplicate in the same row goes unreported")
 		}
+		c19DuplicateVerdict(c, dup)
 	}
 }
 
